@@ -100,6 +100,28 @@ def run_build(c, obj, kw):
     return guarded(f)
 
 
+def run_lazy(c, kw, data, start, history):
+    """parse_stream on a LazyStruct / LazyArray, then the accesses of the history by member index:
+    position after the parse, then (value, tell()) after each access; the first access that raises ends it"""
+    def f():
+        st = io.BytesIO(data)
+        st.seek(start)
+        res = c.parse_stream(st, **kw)
+        pos = st.tell()
+        outs = []
+        for i in history:
+            try:
+                v = res[i]
+                outs.append(('LVal', to_val(v), st.tell()))
+            except Exception as e:
+                if isinstance(e, Unsupported):
+                    raise
+                outs.append(('LErr', err_term(e)[1]))
+                break
+        return ('ROkLazy', pos, outs)
+    return guarded(f)
+
+
 def run_sizeof(c, kw):
     def f():
         n = c.sizeof(**kw)
